@@ -166,6 +166,13 @@ func (s *Sched) complete0(c *selCase) (val interface{}, ok bool) {
 	p := ts[k].pend
 	p.handed = true
 	p.handCase = idx[k]
+	// which of several waiting partners got the value is part of the state at once (not only when the partner runs
+	// again): otherwise the alternatives of this choice look alike to the state cache and all but one are pruned
+	if pt := ts[k]; s.opt.Keys {
+		old := pt.h
+		pt.h = pt.h.Mix(0x21f, uint64(idx[k]))
+		s.rehash(pt, old)
+	}
 	if c.send {
 		p.handVal, p.handOK = c.val, true
 		return nil, true
